@@ -6,6 +6,7 @@ import (
 	"sync/atomic"
 
 	"github.com/deepteams/webp/internal/dsp"
+	"github.com/deepteams/webp/internal/verifhook"
 )
 
 // parallelState holds pooled buffers for parallel encoding.
@@ -86,13 +87,16 @@ func newRowSync(mbH int) *rowSync {
 // waitFor blocks until row y has completed at least needed MBs.
 // Fast path uses atomic load (no lock). Slow path uses cond.Wait.
 func (rs *rowSync) waitFor(y int, needed int32) {
+	verifhook.Yield(verifhook.PointWaitEnter, y, int(needed))
 	r := &rs.rows[y]
 	if r.done.Load() >= needed {
 		return
 	}
+	verifhook.Yield(verifhook.PointWaitSlow, y, int(needed))
 	r.waiters.Add(1)
 	r.mu.Lock()
 	for r.done.Load() < needed {
+		verifhook.Yield(verifhook.PointCondWait, y, int(needed))
 		r.cond.Wait()
 	}
 	r.mu.Unlock()
@@ -103,9 +107,11 @@ func (rs *rowSync) waitFor(y int, needed int32) {
 // Fast path: if no goroutine is waiting, just do an atomic store.
 // Slow path: Lock + Broadcast when waiters are present.
 func (rs *rowSync) signal(y int, done int32) {
+	verifhook.Yield(verifhook.PointSignal, y, int(done))
 	r := &rs.rows[y]
 	r.done.Store(done)
 	if r.waiters.Load() > 0 {
+		verifhook.Yield(verifhook.PointSignalSlow, y, int(done))
 		r.mu.Lock()
 		r.mu.Unlock()
 		r.cond.Broadcast()
@@ -173,6 +179,7 @@ func (enc *VP8Encoder) encodeFrameParallel(stats *ProbaStats) {
 	// overhead — beyond 6 workers the pipeline depth (3 rows) limits
 	// parallelism and extra goroutines just add sync contention.
 	numWorkers := runtime.GOMAXPROCS(0)
+	numWorkers = verifhook.Workers(verifhook.SiteLossyEncodeParallel, numWorkers)
 	if numWorkers > 6 {
 		numWorkers = 6
 	}
@@ -226,6 +233,7 @@ func (enc *VP8Encoder) encodeFrameParallel(stats *ProbaStats) {
 			defer wg.Done()
 			for {
 				y := int(ps.nextRow.Add(1) - 1)
+				verifhook.Yield(verifhook.PointClaim, y, mbH)
 				if y >= mbH {
 					return
 				}
@@ -294,6 +302,7 @@ func (enc *VP8Encoder) encodeRow(w *RowWorker, y int, topY, topU, topV, topModes
 		mbIdx := y*mbW + x
 		info := &enc.mbInfo[mbIdx]
 		seg := &enc.dqm[info.Segment]
+		verifhook.Yield(verifhook.PointMBBegin, y, x)
 
 		// Wait for the row above to complete MB x+1 (top + top-right context).
 		// We need MB x+1 for accurate I4x4 VL4/LD4 top-right prediction.
@@ -306,6 +315,7 @@ func (enc *VP8Encoder) encodeRow(w *RowWorker, y int, topY, topU, topV, topModes
 			rs.waitFor(y-1, waitX)
 		}
 
+		verifhook.Yield(verifhook.PointMBStart, y, x)
 		// 1. Import source data.
 		importBlockParallel(enc, w, x, y)
 
@@ -324,6 +334,7 @@ func (enc *VP8Encoder) encodeRow(w *RowWorker, y int, topY, topU, topV, topModes
 		// 6. Reconstruct MB.
 		reconstructMBParallel(enc, w, x, y, info, seg)
 
+		verifhook.Yield(verifhook.PointExport, y, x)
 		// 7. Export: write back to planes and update context.
 		exportParallel(enc, w, x, y, topY, topU, topV, topModes, &leftY, &leftU, &leftV, &leftModes, &topLeftY, &topLeftU, &topLeftV, info)
 
@@ -1544,6 +1555,7 @@ func (enc *VP8Encoder) recordAllTokens(stats *ProbaStats) {
 			// Phase A workers still processing later rows.
 			if enc.parallelRS != nil {
 				enc.parallelRS.waitFor(it.Y, int32(enc.mbW))
+				verifhook.Yield(verifhook.PointRecordRow, it.Y, enc.mbW)
 			}
 			enc.leftNz = 0
 			enc.leftNzDC = 0
